@@ -46,9 +46,9 @@ LNAMES = ['la', 'lb']
 ALLNAMES = NAMES + LNAMES
 API_KINDS = ['group', 'env']
 TEX_KINDS = ['brace', 'begingroup', 'center', 'quote', 'math', 'cell', 'textbf', 'mbox', 'parenmath', 'displaymath',
-             'equation', 'itemize', 'minipage', 'footnote']
-MATH_KINDS = ('math', 'parenmath', 'displaymath', 'equation')
-ARG_KINDS = ('textbf', 'mbox', 'footnote')
+             'equation', 'itemize', 'minipage', 'footnote', 'dollars', 'figurestar', 'multicolumn']
+MATH_KINDS = ('math', 'parenmath', 'displaymath', 'equation', 'dollars')
+ARG_KINDS = ('textbf', 'mbox', 'footnote', 'multicolumn')
 
 
 def generate(seed, tier):
@@ -87,8 +87,10 @@ def generate(seed, tier):
         elif o == 'SETCOUNTER':
             ops.append({'op': 'STEP', 'how': r.choice(['set', 'add']), 'n': r.randint(0, 9)})
         elif o in ('DEF_LOCAL', 'DEF_GLOBAL'):
-            ops.append({'op': o, 'name': r.choice(NAMES), 'id': ident})
+            ops.append({'op': o, 'name': r.choice(NAMES), 'id': ident, 'form': r.choice(['plain', 'plain', 'e'])})
             ident += 1
+            if r.random() < 0.2:
+                ops.append({'op': 'EMPTY'})
         elif o == 'LET':
             a, b = r.sample(ALLNAMES if r.random() < 0.4 else NAMES, 2)
             ops.append({'op': 'LET', 'dst': a, 'src': b})
@@ -352,16 +354,19 @@ def run_api(ops):
 OPEN_TEX = {'brace': '{', 'begingroup': '\\begingroup ', 'center': '\\begin{center}', 'quote': '\\begin{quote}', 'math': '$ ',
             'cell': '\\begin{tabular}{ll}', 'textbf': '\\textbf{', 'mbox': '\\mbox{', 'parenmath': '\\( ', 'displaymath': '\\[ ',
             'equation': '\\begin{equation}', 'itemize': '\\begin{itemize}\\item ', 'minipage': '\\begin{minipage}{3cm}',
-            'footnote': '\\footnote{'}
+            'footnote': '\\footnote{', 'dollars': '$$ ', 'figurestar': '\\begin{figure*}',
+            'multicolumn': '\\begin{tabular}{ll}\\multicolumn{2}{c}{'}
 CLOSE_TEX = {'brace': '}', 'begingroup': '\\endgroup ', 'center': '\\end{center}', 'quote': '\\end{quote}', 'math': '$',
              'cell': '\\end{tabular}', 'textbf': '}', 'mbox': '}', 'parenmath': '\\)', 'displaymath': '\\]',
-             'equation': '\\end{equation}', 'itemize': '\\end{itemize}', 'minipage': '\\end{minipage}', 'footnote': '}'}
+             'equation': '\\end{equation}', 'itemize': '\\end{itemize}', 'minipage': '\\end{minipage}', 'footnote': '}',
+             'dollars': '$$', 'figurestar': '\\end{figure*}', 'multicolumn': '}\\end{tabular}'}
 PREAMBLE = ('\\documentclass{article}\\newcounter{cx}\\newif\\ifsw\\makeatletter\\def\\pr@be{L}\\makeatother\\def\\pr{O}'
             + ''.join('\\def\\%s{%s0}' % (n, n) for n in ALLNAMES) + '\\begin{document}')
 
 
-def compile_tex(ops):
-    """-> (source, expected text).  Every PROBE is preceded by the marker token 'x'."""
+def compile_tex(ops, global_prefix=False):
+    """-> (source, expected text).  Every PROBE is preceded by the marker token 'x'.
+    global_prefix: spell global definitions with TeX's \\global prefix (\\global\\def, \\global\\let) instead of \\gdef."""
     m = Model()
     m.frames.append({'macros': {}, 'lets': {}, 'cats': {}, 'kind': 'document'})
     src, exp = [], []
@@ -425,15 +430,24 @@ def compile_tex(ops):
                 src.append(' & ')
                 m.close()
                 m.open('cell')
+        elif o == 'EMPTY':
+            if not in_math:
+                src.append('{}')
         elif o == 'DEF_LOCAL':
-            src.append('\\def\\%s{%s%d}' % (op['name'], op['name'], op['id']))
+            src.append(('\\edef\\%s{%s%d}' if op.get('form') == 'e' else '\\def\\%s{%s%d}') % (op['name'], op['name'], op['id']))
             m.def_local(op['name'], op['id'])
         elif o == 'DEF_GLOBAL':
-            src.append('\\gdef\\%s{%s%d}' % (op['name'], op['name'], op['id']))
+            src.append(('\\global\\def\\%s{%s%d}' if global_prefix else ('\\xdef\\%s{%s%d}' if op.get('form') == 'e' else '\\gdef\\%s{%s%d}'))
+                       % (op['name'], op['name'], op['id']))
             m.def_global(op['name'], op['id'])
         elif o == 'LET':
             if op['dst'] in LNAMES or op['src'] in LNAMES:
                 continue        # source-level \let of a name that may be a character alias: the tokenizer substitutes first
+            if op.get('global') and global_prefix:
+                src.append('\\global\\let\\%s=\\%s ' % (op['dst'], op['src']))
+                m.frames[0]['macros'][op['dst']] = m.lookup(op['src'])
+                m.frames[-1]['gdef'] = 1
+                continue
             src.append('\\let\\%s=\\%s ' % (op['dst'], op['src']))
             m.let(op['dst'], op['src'])
         elif o == 'LETCHAR':
@@ -486,9 +500,9 @@ def compile_tex(ops):
     return PREAMBLE + ''.join(src) + '\\end{document}', ''.join(e for e in exp if e), m
 
 
-def run_tex(ops):
+def run_tex(ops, global_prefix=False):
     from plasTeX.TeX import TeX
-    source, expected, m = compile_tex(ops)
+    source, expected, m = compile_tex(ops, global_prefix)
     tex = TeX()
     tex.input(source)
     doc = tex.parse()
@@ -559,6 +573,12 @@ def run_dfs(prefix, depth, res):
 def enumerate_cases(base_seed, tier):
     depth = 4 if tier == 'quick' else 6
     out = []
+    # TeX's \global prefix (the seeded histories spell global definitions \gdef): one small history per group kind
+    for j, kind in enumerate(['brace', 'begingroup', 'center', 'math', 'cell', 'mbox']):
+        for what in ('def', 'let'):
+            body = [{'op': 'DEF_GLOBAL', 'name': 'na', 'id': 7}] if what == 'def' else [{'op': 'LET', 'dst': 'na', 'src': 'nb', 'global': True}]
+            out.append({'property': PID, 'seed': core.h64('C04-global', j, what), 'swarm': {'transports': ['tex'], 'global_prefix': True},
+                        'ops': [{'op': 'OPEN', 'kind': kind}] + body + [{'op': 'PROBE', 'what': 'na'}, {'op': 'CLOSE'}, {'op': 'PROBE', 'what': 'na'}]})
     k = 0
     for a in DFS_ALPHABET:
         if a['op'] == 'CLOSE':
@@ -590,15 +610,21 @@ def execute(record):
         try:
             if tr == 'api':
                 api_ops = [dict(o, kind={'center': 'center', 'quote': 'quote', 'textbf': 'textbf', 'mbox': 'mbox'}.get(o.get('kind'), 'group'))
-                           if o['op'] == 'OPEN' else o for o in ops if o['op'] not in ('CELLSEP', 'ROWSEP', 'VERB')]
+                           if o['op'] == 'OPEN' else o for o in ops if o['op'] not in ('CELLSEP', 'ROWSEP', 'VERB', 'EMPTY')]
                 m, st = run_api(api_ops)
                 states.extend(st)
                 info.update(m.info)
                 log.append(['api', len(st)])
             else:
-                source, expected, got, depth, m = run_tex(ops)
+                gp = bool(record['swarm'].get('global_prefix'))
+                source, expected, got, depth, m = run_tex(ops, gp)
                 info.update(m.info)
                 log.append(['tex', got, depth])
+                if got != expected and gp:
+                    what = 'let' if any(o.get('global') for o in ops) else 'def'
+                    viol.append({'sig': 'C04|tex|global-prefix|%s' % what,
+                                 'detail': {'source': source[len(PREAMBLE):][:600], 'expected': expected[:200], 'got': got[:200]}})
+                    break
                 if got != expected:
                     # first differing probe
                     n = 0
